@@ -136,7 +136,7 @@ theorem and_group_from_start (fuel : Nat) (s : VM) (f : FUid) (h : HUid) (i : In
         exact this _ _ key hkey
       have := hleaf key hkey
       rw [show key = (f, key.2) from by rw [← hf]] at this
-      exact this)
+      exact this.1)
   rw [remMs_allAtMatch] at hs3
   exact ⟨s1, s2, s3, hsl, hrun, hs3⟩
 
